@@ -135,9 +135,14 @@ impl HeapObject {
         HeapObject::Object(ObjectInstance { parent, fields, methods })
     }
     pub fn evaluate_as_string(&self, heap: &Heap) -> Result<String> {
+        self.evaluate_as_string_within(heap, &mut Vec::new())
+    }
+    // `path` holds the heap objects currently being rendered: meeting one of them again means
+    // the value is cyclic and rendering it would never end.
+    fn evaluate_as_string_within(&self, heap: &Heap, path: &mut Vec<HeapIndex>) -> Result<String> {
         match self {
-            HeapObject::Array(array) => array.evaluate_as_string(heap),
-            HeapObject::Object(object) => object.evaluate_as_string(heap),
+            HeapObject::Array(array) => array.evaluate_as_string_within(heap, path),
+            HeapObject::Object(object) => object.evaluate_as_string_within(heap, path),
         }
     }
     pub fn size(&self) -> usize {
@@ -206,8 +211,11 @@ impl ArrayInstance {
         Ok(&self.0[index])
     }
     pub fn evaluate_as_string(&self, heap: &Heap) -> Result<String> {
+        self.evaluate_as_string_within(heap, &mut Vec::new())
+    }
+    fn evaluate_as_string_within(&self, heap: &Heap, path: &mut Vec<HeapIndex>) -> Result<String> {
         let elements = self.0.iter()
-            .map(|element| element.evaluate_as_string(heap))
+            .map(|element| element.evaluate_as_string_within(heap, path))
             .collect::<Result<Vec<String>>>()?;
         Ok(format!("[{}]", elements.join(", ")))
     }
@@ -253,9 +261,12 @@ impl ObjectInstance {
             .with_context(|| format!("There is no field named `{}` in object `{}`", name, self))
     }
     pub fn evaluate_as_string(&self, heap: &Heap) -> Result<String> {
+        self.evaluate_as_string_within(heap, &mut Vec::new())
+    }
+    fn evaluate_as_string_within(&self, heap: &Heap, path: &mut Vec<HeapIndex>) -> Result<String> {
         let parent = match self.parent {
             Pointer::Null => None,
-            parent => Some(parent.evaluate_as_string(heap)?),
+            parent => Some(parent.evaluate_as_string_within(heap, path)?),
         };
 
         // Sort fields in lexographical order
@@ -264,7 +275,7 @@ impl ObjectInstance {
 
         let fields = sorted_fields.into_iter()
             .map(|(name, value)| {
-                value.evaluate_as_string(heap).map(|value| format!("{}={}", name, value))
+                value.evaluate_as_string_within(heap, path).map(|value| format!("{}={}", name, value))
             })
             .collect::<Result<Vec<String>>>()?;
 
@@ -447,11 +458,21 @@ impl Pointer {
     }
 
     pub fn evaluate_as_string(&self, heap: &Heap) -> Result<String> { // TODO trait candidate
+        self.evaluate_as_string_within(heap, &mut Vec::new())
+    }
+    fn evaluate_as_string_within(&self, heap: &Heap, path: &mut Vec<HeapIndex>) -> Result<String> {
         match self {
             Pointer::Null => Ok("null".to_owned()),
             Pointer::Integer(i) => Ok(i.to_string()),
             Pointer::Boolean(b) => Ok(b.to_string()),
-            Pointer::Reference(index) => heap.dereference(index)?.evaluate_as_string(heap),
+            Pointer::Reference(index) => {
+                bail_if!(path.contains(index),
+                         "Cannot print a value that contains itself (heap object `{}`)", index);
+                path.push(*index);
+                let result = heap.dereference(index)?.evaluate_as_string_within(heap, path);
+                path.pop();
+                result
+            }
         }
     }
 }
